@@ -708,6 +708,7 @@ func (w *World) runBackendConcurrent(sc *Scenario, p mast.Persist, s3sim *SimS3,
 // RunBackendShard is the C18 shard loop.
 func RunBackendShard(t *testing.T, env *ShardEnv) *ShardReport {
 	rep := newShardReport(env.Prop, "backend", env.Shard, env.Tier, env.Seed)
+	liveReport = rep
 	start := time.Now()
 	shardSeed := mixSeed(env.Seed, strSeed(env.Prop), uint64(env.Shard))
 	nt := map[uint64]bool{}
